@@ -728,7 +728,7 @@ func opBuy(g *G) bool {
 	}
 	bo, note := g.buyOrder(v, o)
 	orders := []*market.MsgBuyDirect_Order{bo}
-	switch g.R.Intn(6) {
+	switch g.R.Intn(7) {
 	case 0:
 		// the same order twice in one message
 		half := rat(fmtRat(new(big.Rat).Quo(o.Qty.V, big.NewRat(2, 1)), 6))
@@ -782,6 +782,38 @@ func opBuy(g *G) bool {
 				g.bump("dup:buy-two-orders-same-seller-batch")
 				break
 			}
+		}
+	case 4:
+		// two entries that resolve to the SAME market: an honest first entry (dust or partial), then the same order
+		// or a sibling order of that market bid in ANOTHER denom the buyer holds (bid amount >= ask): the message
+		// must fail as a whole -- every entry is checked against its market's denom, also a repeated market
+		if mk := v.Markets[o.Market]; mk != nil && o.Ask != nil && o.Qty.V != nil && o.Qty.V.Sign() > 0 {
+			other := ""
+			for _, d := range []string{"stake", "uatom", "uregen"} {
+				if d != mk.Denom {
+					other = d
+					if g.R.Bool() {
+						break
+					}
+				}
+			}
+			target := o
+			for _, o2 := range os {
+				if o2.ID != o.ID && o2.Market == o.Market && idxOf(o2.Seller) != buyer && o2.Ask != nil && o2.Qty.V != nil && g.R.Bool() {
+					target = o2
+					break
+				}
+			}
+			dust := "0.000001"
+			first := chain.BuyOrder(o.ID, dust, bigCoin(mk.Denom, o.Ask), o.DisableAutoRetire, g.jur(), "", bigCoin(mk.Denom, new(big.Int).Add(buyerFeeFloor(v, micro, o.Ask), big.NewInt(1))))
+			q := rat(fmtRat(new(big.Rat).Quo(target.Qty.V, big.NewRat(2, 1)), 6))
+			if q.Sign() == 0 {
+				q = new(big.Rat).Set(micro)
+			}
+			second := chain.BuyOrder(target.ID, fmtRat(q, 6), bigCoin(other, target.Ask), target.DisableAutoRetire, g.jur(), "", bigCoin(other, new(big.Int).Add(buyerFeeFloor(v, q, target.Ask), big.NewInt(1))))
+			orders = []*market.MsgBuyDirect_Order{first, second}
+			note = fmt.Sprintf("same market twice in one message: an honest dust bid in %s, then order %d bid in %s", mk.Denom, target.ID, other)
+			g.bump("buy:same-market-later-bid-in-other-denom")
 		}
 	case 1:
 		if len(os) > 1 {
